@@ -24,7 +24,7 @@ Context {F : Type} {OF : Ops F} {L : Laws OF}.
 Local Open Scope F_scope.
 Add Field FFsae : (fth (O:=OF)).
 
-Definition map_ma (g : list F -> list F) (r : aerr + (list F * F)) : aerr + (list F * F) :=
+Definition map_mae (g : list F -> list F) (r : aerr + (list F * F)) : aerr + (list F * F) :=
   match r with inl e => inl e | inr (b, rho) => inr (g b, rho) end.
 Definition map_arma (g : list F -> list F) (r : aerr + (list F * list F * F)) : aerr + (list F * list F * F) :=
   match r with inl e => inl e | inr (a, b, rho) => inr (g a, g b, rho) end.
@@ -77,7 +77,7 @@ Proof.
   rewrite vmod_length. apply (levinson_modulation_thm phi phi_add phi_0 phi_cj).
 Qed.
 
-Theorem ma_est_modulation_thm off (x : list F) Q M : ma (vmod phi off x) Q M = map_ma (modA phi) (ma x Q M).
+Theorem ma_est_modulation_thm off (x : list F) Q M : ma (vmod phi off x) Q M = map_mae (modA phi) (ma x Q M).
 Proof.
   unfold ma. destruct ((Q =? 0)%nat || (M <=? Q)%nat); [reflexivity|].
   rewrite aryule_est_mod. destruct (ArmaEst.aryule x M Biased) as [[[a rho] k]|]; [|reflexivity]. cbn [option_map modst].
@@ -255,7 +255,6 @@ Proof.
   rewrite (class_finish_perm mirror) by (intros g l; apply mirror_map). reflexivity.
 Qed.
 
-Let phi (m : Z) := sphase tw m.
 (* parma / pma on complex data: the stored spectrum of the modulated data is the stored spectrum rolled by m bins *)
 Theorem parma_shift_gen (m : Z) (lsm lsq lsm' lsq' : list F -> nat -> list F) (x : list F) P Q lag twopi sampling sbf :
   ls_agree_mod (sphase tw m) lsm lsq lsm' lsq' x P Q lag ->
@@ -278,7 +277,7 @@ Theorem pma_call_shift_thm (m : Z) (x : list F) Q M twopi sampling sbf :
 Proof.
   unfold pma_call.
   rewrite (ma_est_modulation_thm (sphase tw m) (sphase_add n tw n_pos m) (sphase_0 n tw m) (sphase_cj n tw n_pos m)).
-  destruct (ma x Q M) as [e|[b rho]]; [reflexivity|]. cbn [map_ma]. rewrite vmod_length.
+  destruct (ma x Q M) as [e|[b rho]]; [reflexivity|]. cbn [map_mae]. rewrite vmod_length.
   assert (E : @nil F = modA (sphase tw m) []) by reflexivity. rewrite E at 1. apply class_call_rotation.
 Qed.
 End Grid.
@@ -302,10 +301,10 @@ Proof.
 Qed.
 
 Theorem ma_est_conj_thm (x : list F) Q M : (forall b rho, ma x Q M = inr (b, rho) -> nonzero_data x) ->
-  ma (vconj x) Q M = map_ma vconj (ma x Q M).
+  ma (vconj x) Q M = map_mae vconj (ma x Q M).
 Proof.
   intros Hx. destruct (ma x Q M) as [e|[b rho]] eqn:E.
-  - cbn [map_ma]. apply (ma_error_length x); [apply vconj_length|exact E].
+  - cbn [map_mae]. apply (ma_error_length x); [apply vconj_length|exact E].
   - specialize (Hx b rho eq_refl). unfold ma in *. destruct ((Q =? 0)%nat || (M <=? Q)%nat); [discriminate|].
     rewrite (aryule_est_conj x M Hx).
     destruct (ArmaEst.aryule x M Biased) as [[[a r0] k0]|]; [|discriminate]. cbn [option_map conjst].
@@ -397,7 +396,7 @@ Theorem pma_call_mirror_thm (x : list F) Q M twopi sampling sbf :
   pma_call tw (vconj x) Q M twopi sampling n false sbf = map_call vconj mirror (pma_call tw x Q M twopi sampling n false sbf).
 Proof.
   intros Hx. unfold pma_call. rewrite (ma_est_conj_thm x Q M Hx).
-  destruct (ma x Q M) as [e|[b rho]]; [reflexivity|]. cbn [map_ma]. rewrite vconj_length.
+  destruct (ma x Q M) as [e|[b rho]]; [reflexivity|]. cbn [map_mae]. rewrite vconj_length.
   assert (E : @nil F = vconj []) by reflexivity. rewrite E at 1. apply (class_call_mirror n tw n_pos).
 Qed.
 End GridC.
